@@ -20,13 +20,17 @@
      C17_ex_cubic_run            C17_stepx_is_step, C17_cubic_root_unreachable
      C17_ex_cubic_rules          C17_cubic_epoch_start_rule, C17_cubic_growth_rule, C17_cubic_slow_start_rule,
                                  C17_cubic_cnt_pos, C17_cubic_new_ack_rule
+     C17_ex_app_limited          C17_app_send_guard, C17_app_window_respected, C17_app_buffer_respected,
+                                 C17_app_other_events
+     C17_ex_app_partial_tail     C17_app_partial_tail_waits, C17_app_partial_buffer_is_permanent
+     C17_ex_app_writes           (C17_app_send_guard again: writes of 2, 3 and 4 MSS, numbering stays consecutive)
    Unconditional (no hypotheses beyond typing binders): C17_fr_ssthresh_is_max, C17_cubic_friendliness_gain,
      C17_gen_timer_expired, C17_gen_dupack_over, C17_gen_fast_retransmit, C17_gen_more_dupacks, C17_gen_cubic_consts,
      C17_gen_cubic_timer_expired.
    Already a witness (existential statement): C17_deflate_refuted_before_fix. *)
 From Coq Require Import ZArith QArith Qabs Qminmax List Lia.
 From ONL Require Import Tcp.Sender Tcp.SenderProofs Gen.Extracted_cc Tcp.CcBridge Tcp.Cubic Tcp.CubicProofs Tcp.CubicBridge
-  Tcp.SenderExamples.
+  Tcp.SenderExamples Tcp.AppSender Tcp.AppSenderProofs Tcp.AppSenderExamples.
 Import ListNotations.
 Open Scope Z_scope.
 
@@ -320,3 +324,70 @@ Proof.
     eexists. vm_compute. reflexivity.
 Qed.
 Print Assumptions C17_ex_cubic_rules.
+
+(* ------------------------------------------------------------------------------------------------ *)
+(* The sender with an application process (Tcp/AppSenderExamples.v).
+   Covers C17_app_send_guard, C17_app_window_respected, C17_app_buffer_respected, C17_app_other_events: one MSS of data
+   per second, RTO 3/4 s, window 4 MSS, no ACKs.  Asleep until t = 1 ([sA 1]); the write at t = 1 resumes run(), segment 0
+   goes out inside the window 2048 and inside the 512 buffered bytes; its timer expires at 7/4 (an event of Tcp/Sender.v:
+   cwnd := 512) while run() sleeps for the next write; at t = 2 the write is taken (send_buffer 1024) but NOTHING is sent:
+   next_seq + MSS = 1024 exceeds last_ack + cwnd = 512, the window in force at that resumption. *)
+Theorem C17_ex_app_limited :
+  0 < mss (ac_cfg acA) /\ (exists now, AAppWake 1 = AWake now \/ AAppWake 1 = AAppWake now) /\
+  fetch_ok acA (sA 1) /\ (forall d, ap_sleep (aA 1) = Some (true, d) -> send_buffer (sA 1) <= next_seq (sA 1)) /\
+  ap_sleep (aA 1) = Some (true, 1%Q) /\
+  astep fxA 100 acA (sA 1) (aA 1) (AAppWake 1) = AOk (sA 2) (aA 2) [Tx 0 512; TStart 0 (6 # 8)] /\
+  next_seq (sA 1) < next_seq (sA 2) /\ next_seq (sA 2) = 512 /\ send_buffer (sA 2) = 512 /\
+  (zq (next_seq (sA 2) - last_ack (sA 1)) <= cwnd (sA 1))%Q /\ (cwnd (sA 1) == 2048 # 1)%Q /\
+  (forall i z, In (Tx i z) [Tx 0 512; TStart 0 (6 # 8)] -> i + mss (ac_cfg acA) <= send_buffer (sA 2)) /\
+  EExpire 0 <> EWake /\
+  astep fxA 100 acA (sA 2) (aA 2) (AEv (EExpire 0)) =
+    match step fxA (ac_cfg acA) (sA 2) (EExpire 0) with Ok s' o => AOk s' (aA 2) o | Raise x => ARaise x end /\
+  (cwnd (sA 3) == 512 # 1)%Q /\ ap_sleep (aA 3) = Some (true, 2 # 1) /\
+  astep fxA 100 acA (sA 3) (aA 3) (AAppWake (2 # 1)) = AOk (sA 4) (aA 4) [] /\
+  next_seq (sA 4) = 512 /\ send_buffer (sA 4) = 1024 /\ waiting (sA 4) = true /\ last_ack (sA 4) = 0.
+Proof.
+  split; [reflexivity|]. split; [exists 1%Q; right; reflexivity|].
+  split; [vm_compute; left; reflexivity|].
+  split; [intros d _; vm_compute; discriminate|].
+  split; [vm_compute; reflexivity|]. split; [vm_compute; reflexivity|].
+  split; [vm_compute; reflexivity|]. split; [vm_compute; reflexivity|]. split; [vm_compute; reflexivity|].
+  split; [vm_compute; discriminate|]. split; [vm_compute; reflexivity|].
+  split; [intros i z [H|[H|[]]]; [injection H as <- _; vm_compute; discriminate|discriminate]|].
+  split; [discriminate|]. split; [reflexivity|].
+  split; [vm_compute; reflexivity|]. split; [vm_compute; reflexivity|]. split; [vm_compute; reflexivity|].
+  repeat split; vm_compute; reflexivity.
+Qed.
+Print Assumptions C17_ex_app_limited.
+
+(* Covers C17_app_partial_tail_waits, C17_app_partial_buffer_is_permanent: a bulk flow of 1280 bytes = 2.5 MSS.  The
+   first resumption sends segments 0 and 512 and buffers the last 256 bytes ([sP]: next_seq 1024, send_buffer 1280);
+   they are never sent: run() waits on its store, is not finished, and a later resumption (store token) changes nothing. *)
+Definition sPw : sender := set_store sP O O false true.
+Theorem C17_ex_app_partial_tail :
+  txs (snd stP) = [(0, 512); (512, 512)] /\ next_seq sP = 1024 /\ send_buffer sP = 1280 /\
+  waiting sP = true /\ finished sP = false /\
+  match ac_finish acP with Some ft => (1 < ft)%Q | None => True end /\
+  (fsize (ac_cfg acP) = 0 \/ next_seq sPw < fsize (ac_cfg acP)) /\
+  next_seq sPw < send_buffer sPw < next_seq sPw + mss (ac_cfg acP) /\
+  wake sPw = true /\ finished sPw = false /\ ap_sleep aP = None /\ ap_started aP = true /\
+  arun 2 acP 1 MOuter sPw aP [] = AOk (set_store sPw O (pend sPw) true false) aP [] /\
+  exists s', astep fxA 2 acP sPw aP (AWake 1) = AOk s' aP [] /\ next_seq s' = 1024 /\ send_buffer s' = 1280 /\ finished s' = false.
+Proof.
+  split; [vm_compute; reflexivity|]. split; [vm_compute; reflexivity|]. split; [vm_compute; reflexivity|].
+  split; [vm_compute; reflexivity|]. split; [vm_compute; reflexivity|]. split; [exact I|].
+  split; [right; vm_compute; reflexivity|]. split; [vm_compute; split; reflexivity|].
+  split; [reflexivity|]. split; [vm_compute; reflexivity|]. split; [vm_compute; reflexivity|]. split; [vm_compute; reflexivity|].
+  split; [vm_compute; reflexivity|].
+  eexists. split; [vm_compute; reflexivity|]. repeat split.
+Qed.
+Print Assumptions C17_ex_app_partial_tail.
+
+(* Application writes of 1024, 1536 and 2048 bytes, 1/4 s apart, window 16 MSS: nine segments 0, 512, ..., 4096, each of
+   one MSS, numbered consecutively whatever the size of the write that made them available. *)
+Theorem C17_ex_app_writes :
+  txs (snd (stW 3)) = [(0, 512); (512, 512); (1024, 512); (1536, 512); (2048, 512); (2560, 512); (3072, 512); (3584, 512); (4096, 512)] /\
+  starts (snd (stW 3)) = seg_ids 512 0 9 /\ next_seq (sW 3) = 4608 /\ send_buffer (sW 3) = 4608 /\
+  send_buffer (sW 1) = 1024 /\ send_buffer (sW 2) = 2560.
+Proof. repeat split; vm_compute; reflexivity. Qed.
+Print Assumptions C17_ex_app_writes.
